@@ -367,8 +367,17 @@ def exec_tm(case, obs):
         source, layout = source.split("|")
     nvox = int(np.prod(shape))
     vals = tm_scores(nvox, seed)
-    thr = tm_threshold(vals, k_supra) if k_supra != -1 else 0.0
+    sigma = k_supra[1] if isinstance(k_supra, tuple) else None
+    thr = 0.0 if (k_supra == -1 or sigma is not None) else tm_threshold(vals, k_supra)
     scores = np.array([vals[r] for r in ranking], dtype=np.float64).reshape(shape)
+    if sigma is not None:
+        # threshold given as "sigma standard deviations above the mean": both usual definitions of the standard deviation
+        # must select the same voxels, otherwise the case says nothing
+        t0, t1 = scores.mean() + sigma * scores.std(ddof=0), scores.mean() + sigma * scores.std(ddof=1)
+        if any(min(t0, t1) <= v <= max(t0, t1) for v in vals):
+            obs.outcome = ("not-judged: a voxel score lies between the thresholds of the two std definitions",)
+            return
+        thr = float(t1)
     a, b = PERM_AB[nvox]
     rowof = np.array([(a * f + b) % nvox for f in range(nvox)]).reshape(shape)
     amap = (rowof + numbering).astype(np.float64)
@@ -406,8 +415,9 @@ def exec_tm(case, obs):
         s_arg, a_arg = "c07_scores.mrc", "c07_angles.mrc"
         scores = scores.astype(np.float32).astype(np.float64)
     with quiet():
+        tkw = {"scores_threshold": thr} if sigma is None else {"sigma_threshold": sigma}
         res = obs.lib(SITE_TM, tmana.scores_extract_particles, s_arg, a_arg, alist_arg, 7, diam,
-                      scores_threshold=thr, angles_order=order, angles_numbering=numbering)
+                      angles_order=order, angles_numbering=numbering, **tkw)
     voxels = list(itertools.product(*(range(s) for s in shape)))
     flat = {v: i for i, v in enumerate(voxels)}
     sc = {v: float(scores[v]) for v in voxels}
@@ -550,6 +560,11 @@ def families(tier, seed):
                           seed, tm_core))
     # the threshold 0.0 itself (a falsy number): k_supra = -1 means "scores_threshold=0.0", the palette straddles 0
     fams.append(tm_family("tm-threshold-zero", Product(((6, 1, 1), (3, 2, 1)), perms6, (-1,), (1.2, 2.5), [0], ["zxz"], ["array"]), seed, tm_core))
+    # the threshold given in standard deviations above the mean of the map
+    fams.append(tm_family("tm-sigma-threshold",
+                          Union(Product(((6, 1, 1), (3, 2, 1)), perms6, (("sigma", 0.5), ("sigma", -0.5), ("sigma", 1.0)), (1.2, 2.5), [0], ["zxz"], ["array"]),
+                                Mapped(Product(lat, (("sigma", 0.25), ("sigma", 1.0), ("sigma", 1.5)), (1.2, 2.5)), lambda c: (big, c[0], c[1], c[2], 0, "zxz", "array"))),
+                          seed, tm_core))
     layouts = ["array|F", "array|view", "array|em", "array|mrc"]
     fams.append(tm_family("tm-map-layouts",
                           Union(Mapped(Product(lat, (60, 30, 10, 1), (1.2, 2.5), (0, 1), layouts), lambda c: (big, c[0], c[1], c[2], c[3], "zxz", c[4])),
